@@ -1,6 +1,8 @@
 import PySMT.Proofs.C08Table
 import PySMT.Proofs.C08Model
 import PySMT.Proofs.C08Sound
+import PySMT.Proofs.C08AgreeTop2
+import PySMT.Proofs.C08WT5
 /-!
 # C08 — SMT-LIB import never misreads: the property theorems
 
@@ -10,19 +12,45 @@ operator table `Gen/ParserOps.lean`. Reference: the standard reader `Spec/Smtlib
 comparison of whole command lists), the agreement of the *implementation* with the standard reader is searched on every
 run (S, two independent oracles).
 
-What is proved here, and what is not:
+## What is proved
+
 * `parserOps_std` — every token of `self.interpreted` is bound to the constructor the standard prescribes
   (`decide` over the regenerated table, minus the explicit exclusions `Table.knownNonStd`);
 * the repaired behaviours as theorems about the model: simultaneous `let` (F13/F13b), binders shadow definitions (F14),
   unknown names are rejected inside terms (F15), `assert` takes Boolean terms (F15c), bound variables keep their
   order (F31);
-* `readTerm_sound_partial` — whenever the parser model and the standard reader `Std.readStd` both accept a text of the
-  propositional fragment (`Sound.PropFrag`: declared constants, `true`, `false` under `not/and/or/=>/xor`, nested
-  arbitrarily) in corresponding environments, the two terms have the same truth value under every interpretation.
-  `_partial`: the statement for `ite`, `=`, `distinct`, arithmetic, bit-vectors, arrays, strings (they need the typing
-  invariant `readTerm_wt`, which is **not** proved), for `let`/quantifiers against the standard's substitution semantics
-  and for definitions is not proved; these are covered by the search (S, two oracles) and by K only. F16 and F17 are
-  outside the fragment by construction (witnesses: `KNOWN_SHAPES` of the harness, `unknown_symbol_lone_known` below).
+* `readTerm_wt_partial` — **accepted ⇒ well-typed**: every term `readTerm` returns is accepted by pySMT's checker
+  (`Term.wt`), for *every* S-expression (all branches of the model: literals, operators, `let`, quantifiers, annotations,
+  `(_ …)`, `(as …)`, `to_bv`), in every environment whose bound terms are well-typed. `_partial`: (a) applications of
+  `define-fun`'d functions are excluded (`EnvOK`: the substitution of F17), (b) `NoNullary s`: no application to zero
+  arguments `(f)` — a NEW FINDING of this proof: for a declared `f : Int → Int` the parser accepts `(f)` and returns the
+  bare function symbol (`Function(f, [])` returns `vname`), which is not a term; `wt_counterexample` is the witness.
+* `readTerm_agree_partial`, `readTerm_sound_frag_partial`, `readTerm_accept_sound_partial` — **soundness against the
+  standard on the fragment `Agree.FragS`** (decidable; `Proofs/C08AgreeFrag.lean`): numerals (typed by the logic), decimals,
+  `#b`/`#x`, `(_ bvN w)`, string literals without escapes, names; `not and or => xor = distinct ite + * - / <= < >= >
+  to_real`, all bit-vector operators (`concat bvnot bvneg bvand … bvsge bvcomp bv2nat`, `(_ extract i j)`,
+  `(_ zero_extend k)`, `(_ sign_extend k)`, `(_ repeat k)`, `(_ rotate_left k)`, `(_ rotate_right k)`), `select store
+  ((as const σ) v)`, the string operators,
+  applications of declared functions, `let` (simultaneous, against the standard's substitution semantics) and
+  `forall`/`exists`, nested arbitrarily; side condition `Agree.RotOK env [] s` (decidable, `Proofs/C08AgreeRot.lean`; trivially
+  true for a text without rotations): every rotation amount is at most the width of its operand — pySMT refuses larger
+  rotations (a type error), the standard does not. In corresponding environments (`Agree.Corr env [] Γ`: explicit, one direction —
+  the parser may know more names; `penv_corresponds`: `Agree.penvOf env` is one), **whenever the standard reader gives the
+  text a meaning `u`, the parser model accepts it and returns exactly `mkNorm u`** — `u` after the three normalisations
+  `FormulaManager`'s constructors perform (`Not(Not x)`, `ToReal(c)`, `Div` by a constant; `mkNorm_id_of_normal`: the
+  identity on terms in the manager's normal form) — a well-formed term of the sort of `u` that has the value of `u` under
+  every well-formed interpretation (`Proofs/C08NormSem.lean`; `standard_reading_wf_partial`: the standard only builds
+  terms pySMT's checker accepts, `Proofs/C08StdWF*.lean`). In particular: whenever both readers accept, same sort, same
+  meaning (`readTerm_accept_sound_partial`).
+  `_partial`, i.e. NOT in the fragment and covered by K/S only: chainable/left-associative forms with more than two
+  arguments of `=> = distinct - / < <= > >= bvxor` (pySMT rejects them or builds a different but equivalent term), `(- t)`
+  for a non-constant `t` (the standard reads `0 - t`, pySMT `-1 * t`), `bvsmod` (pySMT's own encoding), annotations `(! t …)`, `(as x σ)`, parametric sorts, `div mod
+  abs`, the F11 spellings `str.to_int`/`str.from_int`, and the commands (`script`). The known findings stay explicit
+  hypotheses: F16/F16b (tolerant numerals, bars dropped): every bound name must satisfy `Agree.pnameOK` (`Corr.names`,
+  `FragS`'s `bindNameOK`; witness `f16_excluded`); F17 (capture when applying a definition): `Corr.nodefs`; the fresh
+  renaming of a bound variable whose name the manager knows with another sort: `FragS`'s `ρ` condition with
+  `Agree.MgrLe`.
+* `readTerm_sound_partial` — the first round's theorem (propositional fragment, truth values), kept.
 -/
 namespace PySMT.Props.C08
 open PySMT PySMT.Parser PySMT.Gen.ParserOps
@@ -99,6 +127,67 @@ theorem readTerm_sound_partial (env : Std.SEnv) (Γ : PEnv) (hrel : Sound.EnvRel
     ∀ I, C06.truth I t = C06.truth I t' :=
   Sound.readTerm_sound env Γ hrel s hfr t t' hpy hstd
 
+/-! ## accepted ⇒ well-typed -/
+
+/-- **Every accepted term is well-typed** (see the header for the two exclusions). -/
+theorem readTerm_wt_partial (Γ : PEnv) (h : WT.EnvOK Γ.binds) (s : Sexp) (hs : WT.NoNullary s = true) (t : Term)
+    (hr : readTerm Γ s = .ok t) : t.wt = true :=
+  WT.readTerm_wt Γ h s hs t hr
+
+/-- **Finding (nullary application).** After `(declare-fun f (Int) Int)` the text `(f)` is accepted and the returned
+"term" is the bare function symbol, which the checker does not accept: `NoNullary` cannot be dropped. -/
+theorem wt_counterexample : WT.EnvOK WT.ufEnv.binds ∧ ∃ t, readTerm WT.ufEnv WT.cexS = .ok t ∧ t.wt = false :=
+  WT.counterexample
+
+/-! ## soundness against the standard reader on the fragment `Agree.FragS` -/
+
+/-- **Agreement.** Whenever the standard reader gives a text of the fragment the meaning `u`, the parser model accepts
+it and returns `mkNorm u`, which pySMT's checker accepts. -/
+theorem readTerm_agree_partial (env : Std.SEnv) (ρ : List (String × Sym)) (Γ : PEnv) (hc : Agree.Corr env [] Γ)
+    (hm : Agree.MgrLe Γ.mgr ρ) (s : Sexp) (hf : Agree.FragS env ρ s = true) (hro : Agree.RotOK env [] s = true)
+    (u : Term) (h : Std.readStd env [] s = .ok u) :
+    readTerm Γ s = .ok (Agree.mkNorm u) ∧ (Agree.mkNorm u).wf = true ∧ ∃ τ, (Agree.mkNorm u).typeOf = some τ :=
+  Agree.readTerm_agree env ρ Γ hc hm s hf hro u h
+
+/-- **Soundness.** … and the returned term has the sort of `u` and, under every well-formed interpretation, the value of
+`u`. -/
+theorem readTerm_sound_frag_partial (env : Std.SEnv) (ρ : List (String × Sym)) (Γ : PEnv) (hc : Agree.Corr env [] Γ)
+    (hm : Agree.MgrLe Γ.mgr ρ) (s : Sexp) (hf : Agree.FragS env ρ s = true) (hro : Agree.RotOK env [] s = true)
+    (u : Term) (h : Std.readStd env [] s = .ok u) :
+    ∃ t, readTerm Γ s = .ok t ∧ t = Agree.mkNorm u ∧ t.wf = true ∧ t.typeOf = u.typeOf ∧
+      ∀ I : Interp, I.WF → eval I t = eval I u :=
+  Agree.readTerm_sound env ρ Γ hc hm s hf hro u h
+
+/-- **The property's form**: whenever the parser accepts (and the standard gives the text a meaning), the term it
+returns denotes exactly what the standard says the text denotes. -/
+theorem readTerm_accept_sound_partial (env : Std.SEnv) (ρ : List (String × Sym)) (Γ : PEnv) (hc : Agree.Corr env [] Γ)
+    (hm : Agree.MgrLe Γ.mgr ρ) (s : Sexp) (hf : Agree.FragS env ρ s = true) (hro : Agree.RotOK env [] s = true)
+    (t u : Term) (hpy : readTerm Γ s = .ok t) (hstd : Std.readStd env [] s = .ok u) :
+    t.wf = true ∧ t.typeOf = u.typeOf ∧ ∀ I : Interp, I.WF → eval I t = eval I u :=
+  Agree.readTerm_sound_accept env ρ Γ hc hm s hf hro t u hpy hstd
+
+/-- the manager's normalisation is the identity on terms in the manager's normal form: there the parser returns the
+standard's term itself -/
+theorem mkNorm_id_of_normal (u : Term) (h : Agree.mgrNormal u = true) : Agree.mkNorm u = u :=
+  Agree.mkNorm_of_normal u h
+
+/-- the manager's normalisation keeps sort and meaning -/
+theorem mkNorm_meaning (u : Term) (hwf : u.wf = true) :
+    (Agree.mkNorm u).wf = true ∧ (Agree.mkNorm u).typeOf = u.typeOf ∧
+      ∀ I : Interp, I.WF → eval I (Agree.mkNorm u) = eval I u :=
+  Agree.mkNorm_sem u hwf
+
+/-- on the fragment the standard reader only builds terms pySMT's checker accepts -/
+theorem standard_reading_wf_partial (env : Std.SEnv) (ρ : List (String × Sym)) (hnd : env.defs = []) (s : Sexp)
+    (hf : Agree.FragS env ρ s = true) (hro : Agree.RotOK env [] s = true) (u : Term)
+    (h : Std.readStd env [] s = .ok u) : u.wf = true ∧ ∃ τ, u.typeOf = some τ :=
+  Agree.readStd_wf env ρ hnd s hf hro u h
+
+/-- the parser environment built from the declarations of `env` corresponds to `env` -/
+theorem penv_corresponds (env : Std.SEnv) (h : Agree.envOK env = true) (ρ : List (String × Sym)) :
+    Agree.Corr env [] (Agree.penvOf env) ∧ Agree.MgrLe (Agree.penvOf env).mgr ρ :=
+  ⟨Agree.corr_penvOf env h, Agree.mgrLe_penvOf env ρ⟩
+
 /-! ## non-vacuity -/
 
 /-- the fragment contains nested connectives over symbols -/
@@ -141,5 +230,92 @@ example :
 example : notLiteral "foo" := by unfold notLiteral; decide
 example : ¬ notLiteral "-3" := by unfold notLiteral; decide
 example : ¬ notLiteral "1e2" := by unfold notLiteral; decide
+
+/-! ### the fragment theorems -/
+
+/-- an environment: `x : Int`, `p : Bool`, `f : Int → Int`, logic `QF_LIA`; the manager knows `y : Int` -/
+def envEx : Std.SEnv := { logic := "QF_LIA", funs := [Sym.var "x" .int, Sym.var "p" .bool, ⟨"f", [.int], .int⟩] }
+def ρEx : List (String × Sym) := [("y", Sym.var "y" .int)]
+/-- `(and p (<= (f x) (- 5)))` -/
+def sEx1 : Sexp :=
+  .list [.atom "and", .atom "p", .list [.atom "<=", .list [.atom "f", .atom "x"], .list [.atom "-", .atom "5"]]]
+/-- `(forall ((y Int)) (let ((z (+ y 1))) (=> (> z 0) (= ((_ extract 3 0) #xAB) #b1011))))` -/
+def sEx2 : Sexp :=
+  .list [.atom "forall", .list [.list [.atom "y", .atom "Int"]],
+    .list [.atom "let", .list [.list [.atom "z", .list [.atom "+", .atom "y", .atom "1"]]],
+      .list [.atom "=>", .list [.atom ">", .atom "z", .atom "0"],
+        .list [.atom "=", .list [.list [.atom "_", .atom "extract", .atom "3", .atom "0"], .atom "#xAB"], .atom "#b1011"]]]]
+
+/-- the environment hypothesis is satisfiable -/
+example : Agree.envOK envEx = true := by decide
+
+/-- the fragment contains operators, functions, unary minus of a literal … -/
+example : Agree.FragS envEx ρEx sEx1 = true := by
+  simp only [sEx1, Agree.FragS, Agree.FragL, Agree.fragOps, Agree.arityOK, Agree.binaryOnly, Agree.minusOK,
+    Agree.minusArgOK, Agree.isNumLit, Agree.userHead]
+  decide
+
+/-- … quantifiers, `let`, indexed bit-vector operators, `#x`/`#b` literals -/
+example : Agree.FragS envEx ρEx sEx2 = true := by
+  simp only [sEx2, Agree.FragS, Agree.FragL, Agree.fragOps, Agree.arityOK, Agree.binaryOnly, Agree.minusOK,
+    Agree.fragQuant, Agree.fragLet, Agree.fragLetB, Agree.fragBody, Agree.fragBinds, Agree.fragBind, Agree.fragVars,
+    Agree.letNameOK, Agree.fragHead, Agree.FragSort]
+  decide
+
+/-- a rotation within the width, and one beyond it -/
+def sEx3 : Sexp := .list [.atom "=", .list [.list [.atom "_", .atom "rotate_left", .atom "3"], .atom "#xAB"], .atom "#x5D"]
+def sEx4 : Sexp := .list [.atom "=", .list [.list [.atom "_", .atom "rotate_left", .atom "9"], .atom "#xAB"], .atom "#x5D"]
+
+/-- the side condition for rotations holds for the three texts (and fails for a rotation by 9 of 8 bits) -/
+example : Agree.RotOK envEx [] sEx1 = true ∧ Agree.RotOK envEx [] sEx2 = true ∧ Agree.RotOK envEx [] sEx3 = true ∧
+    Agree.RotOK envEx [] sEx4 = false := by
+  refine ⟨?_, ?_, ?_, ?_⟩ <;>
+  · simp only [sEx1, sEx2, sEx3, sEx4, Agree.RotOK, Agree.RotOKL, Agree.rotQuant, Agree.rotLet, Agree.rotBinds,
+      Agree.rotBind, Agree.rotHeadOK]
+    decide +kernel
+
+example : Agree.FragS envEx ρEx sEx3 = true := by
+  simp only [sEx3, Agree.FragS, Agree.FragL, Agree.fragOps, Agree.arityOK, Agree.binaryOnly, Agree.minusOK,
+    Agree.fragHead]
+  decide
+
+/-- the standard reader accepts both -/
+example : (Std.readStd envEx [] sEx1).toBool = true ∧ (Std.readStd envEx [] sEx2).toBool = true := by
+  constructor <;> decide +kernel
+
+/-- … so the theorems say something about them: the parser model accepts `sEx2` and returns a term with the standard's
+meaning -/
+example : ∃ t, readTerm (Agree.penvOf envEx) sEx2 = .ok t := by
+  have hacc : (Std.readStd envEx [] sEx2).toBool = true := by decide +kernel
+  cases hr : Std.readStd envEx [] sEx2 with
+  | error e => rw [hr] at hacc; cases hacc
+  | ok u =>
+    obtain ⟨t, h, _⟩ := readTerm_sound_frag_partial envEx ρEx (Agree.penvOf envEx)
+      (Agree.corr_penvOf envEx (by decide)) (Agree.mgrLe_penvOf envEx ρEx) sEx2 (by
+        simp only [sEx2, Agree.FragS, Agree.FragL, Agree.fragOps, Agree.arityOK, Agree.binaryOnly, Agree.minusOK,
+          Agree.fragQuant, Agree.fragLet, Agree.fragLetB, Agree.fragBody, Agree.fragBinds, Agree.fragBind,
+          Agree.fragVars, Agree.letNameOK, Agree.fragHead, Agree.FragSort]
+        decide) (by
+        simp only [sEx2, Agree.RotOK, Agree.RotOKL, Agree.rotQuant, Agree.rotLet, Agree.rotBinds, Agree.rotBind,
+          Agree.rotHeadOK]
+        decide +kernel) u hr
+    exact ⟨t, h⟩
+
+/-- chainable comparisons, `(- x)` of a non-constant and `bvsmod` are outside the fragment -/
+example : Agree.FragS envEx ρEx (.list [.atom "<", .atom "x", .atom "x", .atom "x"]) = false ∧
+    Agree.FragS envEx ρEx (.list [.atom "-", .atom "x"]) = false ∧
+    Agree.FragS envEx ρEx (.list [.atom "bvsmod", .atom "#b01", .atom "#b01"]) = false := by
+  refine ⟨?_, ?_, ?_⟩ <;>
+  · simp only [Agree.FragS, Agree.FragL, Agree.fragOps, Agree.arityOK, Agree.binaryOnly, Agree.minusOK,
+      Agree.minusArgOK, Agree.isNumLit, Agree.fragHead]
+    decide
+
+/-- F16/F16b stay excluded: a name spelled like a numeral, a decimal or `#b…` is not `pnameOK` -/
+theorem f16_excluded : Agree.pnameOK "12" = false ∧ Agree.pnameOK "1.5" = false ∧ Agree.pnameOK "#b01" = false ∧
+    Agree.pnameOK "x12" = true ∧ Agree.pnameOK ".def_0" = true := by decide
+
+/-- the hypotheses of `readTerm_wt_partial` are satisfiable and its conclusion is about a term that is really returned -/
+example : WT.EnvOK PEnv.init.binds ∧ WT.NoNullary WT.exS = true ∧ ∃ t, readTerm PEnv.init WT.exS = .ok t :=
+  ⟨WT.EnvOK_init, WT.exS_noNullary, _, WT.read_example⟩
 
 end PySMT.Props.C08
